@@ -188,10 +188,14 @@ class Ctx:
     def handlers_for(self, site, cfg):
         """{'on_next'|'on_error'|'on_completed': ('fn', HandlerSpec) | ('forward', target term, method) | ('absent',)}
         as wired by the subscribe function *under the configuration cfg* (handlers may be defined or chosen
-        conditionally at subscription time)."""
+        conditionally at subscription time).  '_env' holds the locals of the subscribe function at that moment."""
+        key = ("handlers_for", id(site), tuple(sorted(cfg.items())))
+        if key in self._cache:
+            return self._cache[key]
         out = {}
         order = ["on_next", "on_error", "on_completed", "scheduler"]
-        for p in self.fn_paths(site.module, site.subscribe_fn, cfg=cfg, roles=site.roles, inline=False):
+        spec0 = HandlerSpec(site.module, site.subscribe_fn, None, roles=site.roles, ctx=site.ctx)
+        for p in self.ex.run(spec0, None, cfg, max_iter=self.max_iter):
             for e in p.trace:
                 if e.k == "call" and e.d.get("method") in ("subscribe", "subscribe_"):
                     exprs = {}
@@ -203,25 +207,38 @@ class Ctx:
                             if pos < len(order):
                                 exprs[order[pos]] = a
                             pos += 1
+                    env = e.d.get("env", {})
+                    owner = e.d.get("env_owner")
+                    heap0 = {(n, owner): t for n, t in env.items()
+                             if t[0] in ("func", "lambda", "partial", "methodcaller", "attrgetter")
+                             or (t[0] == "attr" and t[1][0] in ("call", "mcall", "obs"))}
+                    prev_env = out.get("_env")
+                    if prev_env is not None and prev_env != env:
+                        raise AnalysisError("%s: the subscribe function reaches its subscription with different local values on different paths of one configuration" % site.name)
+                    out["_env"] = env
                     for which in ("on_next", "on_error", "on_completed"):
                         t = exprs.get(which)
                         bound = {}
                         if t is not None and t[0] == "partial":
                             fn_t = t[1]
                             if fn_t[0] == "func":
-                                params = site.module.scopes[fn_t[1]].params
-                                for k, _ in enumerate(t[2]):
+                                params = fn_t[2].scopes[fn_t[1]].params
+                                for k, a_ in enumerate(t[2]):
                                     if k < len(params):
-                                        bound[params[k]] = ("bound", params[k])
+                                        bound[params[k]] = a_ if a_[0] == "obs" else ("bound", params[k])
                             t = fn_t
                         if t is None or t == ("const", None):
                             ref = ("absent",)
                         elif t[0] in ("func", "lambda"):
-                            fn = t[1]
-                            sc = site.module.scopes[fn]
+                            fn, fmod = t[1], t[2]
+                            sc = fmod.scopes[fn]
                             posargs = [a for a in sc.params if a not in bound]
                             ev = posargs[0] if (which != "on_completed" and posargs) else None
-                            ref = ("fn", HandlerSpec(site.module, fn, ev, roles=site.roles, bound=bound, label=which))
+                            hs = HandlerSpec(fmod, fn, ev, roles=site.roles, bound=bound, label=which, ctx=site.ctx)
+                            hs.heap0 = heap0
+                            if site.instance_of:
+                                hs.instance = "%s::%s" % (site.anchor_rel, site.short.split(".")[0])
+                            ref = ("fn", hs)
                         elif t[0] == "attr" and t[2] in ("on_next", "on_error", "on_completed"):
                             ref = ("forward", t[1], t[2])
                         else:
@@ -230,6 +247,7 @@ class Ctx:
                         if prev is not None and prev[0] != ref[0]:
                             raise AnalysisError("%s: the %s handler is wired differently on different paths of the subscribe function for one configuration" % (site.name, which))
                         out.setdefault(which, ref)
+        self._cache[key] = out
         return out
 
     def mux_sites(self) -> List[Site]:
@@ -273,7 +291,7 @@ class Ctx:
 
     def paths(self, spec: HandlerSpec, kind, cfg: Dict[str, str], max_iter=None) -> List[Path]:
         mi = max_iter or self.max_iter
-        key = (id(spec.fn), tuple(sorted(spec.bound.items())), spec.ctx_key, kind, tuple(sorted(cfg.items())), mi)
+        key = (id(spec.fn), tuple(sorted(spec.bound.items())), spec.ctx_key, frozenset(spec.heap0.items()), kind, tuple(sorted(cfg.items())), mi)
         if key not in self._cache:
             ps = self.ex.run(spec, kind, cfg, max_iter=mi)
             self.total_paths += len(ps)
